@@ -33,6 +33,7 @@ import sys
 import copy
 import queue
 import types
+import time
 import pickle
 import _thread
 import signal
@@ -126,7 +127,9 @@ class KSched(rs.Sched):
             if t.state != rs.DONE:
                 t.sem.release()
         for t in self.threads:
-            t.fin.lock.acquire(timeout=5)
+            if not t.fin.lock.acquire(timeout=5):
+                sys.stderr.write('c20: thread %s not unwound (%s %s)\n'
+                                 % (t.name, t.state, t.where))
 
     def yield_point(self, state=rs.READY, pred=None, step=True):
         me = self.me()
@@ -613,7 +616,8 @@ class World(object):
         return self._seam(task)
 
     def demand_trigger(self):
-        return '+'.join(r['demand'] for r in self.scn['reqs'])
+        return 'concurrent-streams' if len(self.scn['streams']) > 1 \
+               else 'one-stream'
 
     # --------------------------------------------------------------------------
     def run(self):
@@ -797,17 +801,21 @@ def judge(part, world):
                                                   [('g', g) for g in busy_g]
                                          if k in last]))
             cls = sorted(set(world.payload(u) for u in owners)) or ['?']
-            viol('resources-returned', site_of(cls[0]), '+'.join(cls),
-                 'at quiescence cores %s gpus %s are still marked busy '
-                 '(granted to %s)' % (busy_c, busy_g,
-                                      {u: world.reqs[u] for u in owners}))
+            for c in cls:
+                viol('resources-returned', site_of(c), c,
+                     'at quiescence cores %s gpus %s are still marked busy '
+                     '(last granted to %s)'
+                     % (busy_c, busy_g, {u: world.reqs[u] for u in owners}))
         if w._pool:
             owners = sorted(set(world.payload(world.pid_uid[p])
                                 for p in w._pool if p in world.pid_uid))
-            viol('pool-empty', site_of(owners[0]) if owners else
-                 'DefaultWorker', '+'.join(owners) or '?',
-                 'at quiescence the process table still holds %s'
-                 % {p: world.pid_uid.get(p) for p in w._pool})
+            for c in owners or ['?']:
+                viol('pool-empty', site_of(c), c,
+                     'at quiescence the process table still holds %s'
+                     % {p: (world.pid_uid.get(p),
+                            world.payload(world.pid_uid[p])
+                            if p in world.pid_uid else None)
+                        for p in w._pool})
         alive = [p for p in world.procs if not p.ended]
         if alive and world.end == 'done':
             viol('process-left', 'DefaultWorker._dispatch',
@@ -868,7 +876,7 @@ def scenarios(quick):
             for p in PAYLOADS:
                 add('one', cores, gpus, [R(d, p)], lines='all',
                     bound=1 if quick else 2)
-                deep = gpus == 1 and d in ('1c', 'ncng') and \
+                deep = gpus == 1 and d == '1c' and \
                        p in ('ok', 'ok/t', 'hang/t', 'nofork')
                 add('one', cores, gpus, [R(d, p)],
                     bound=(2 if deep else 1) if quick else 3)
@@ -888,6 +896,9 @@ def scenarios(quick):
                         continue      # a refused request never runs
                     if d2 == 'over' and p2 != 'ok':
                         continue
+                    if quick and 'fail' in (p1, p2):
+                        continue      # like `raise` for the worker side;
+                                      # covered by the one-request family
                     deep = not quick and p1 in core2 and p2 in core2 \
                            and 'over' not in (d1, d2)
                     add('two', 2, 1, [R(d1, p1), R(d2, p2)],
@@ -898,7 +909,7 @@ def scenarios(quick):
             ('1c1g', '1c1g', '1c'), ('1c', '1c', '2c'), ('2c', '2c', '2c')]
     pay3 = ('ok', 'raise', 'hang/t') if quick else \
            ('ok', 'fail', 'hang/t', 'ok/t', 'dies', 'nofork')
-    for ds in dem3:
+    for ds in (dem3[:4] if quick else dem3):
         for p1 in pay3:
             for p2 in pay3:
                 for p3 in pay3:
@@ -925,6 +936,7 @@ def scenarios(quick):
 _scns = None
 _sbox = None
 _slot = None
+_deadline = None
 
 
 def _pin():
@@ -959,6 +971,11 @@ def _job(i):
     try:
         for sch, w in rs.explore(lambda p: run_one(scn, p), scn['bound'],
                                  max_exec=scn.get('max_exec')):
+            if sch is not None and time.time() > _deadline:
+                part.cap('scenario %s: wall-clock guard hit after %d '
+                         'schedules at bound %d' % (scn['name'], n,
+                                                    scn['bound']))
+                break
             if sch is None:
                 part.cap('scenario %s: execution cap hit, %d schedules left at '
                          'bound %d' % (scn['name'], w, scn['bound']))
@@ -986,8 +1003,9 @@ def _job(i):
 
 
 def run(ctx):
-    global _scns, _slot
+    global _scns, _slot, _deadline
     import multiprocessing
+    _deadline = time.time() + (70 if ctx.quick else 1020)
     _slot = multiprocessing.get_context('fork').Value('i', 0)
     _scns = scenarios(ctx.quick)
     cap   = 20000 if ctx.quick else 60000
